@@ -115,3 +115,32 @@ Example c03_model_late_root_window_closed :
   exists rs, aget 0 (readers s) = Some rs /\ r_reg rs = 5 /\ r_root rs = Some (5, 3) /\
              durable_id s = 4 /\ nd_released s = 0 /\ fst (latest s) = 8.
 Proof. vm_compute. eexists; repeat split. Qed.
+
+(* ------------------------------------------------------------------------------------------------
+   Tie to the code (Gen/Fns.v is regenerated from transactions.rs on every run by tools/gen_fns.py; see
+   design.d/GEN.md): the horizon steps of the commit programs compute the expressions translated from durable_commit,
+   non_durable_commit and process_data_freed_pages_after_commit. *)
+From RV Require Import Gen.FnsLib Gen.Fns Gen.FnsHorizonP Gen.FnsProgramsP.
+
+Theorem c03_code_durable_commit_free_until_is_model : forall t c s,
+  exec t c TOldestLiveReadC s =
+  with_writer t s ph_open (fun w =>
+    let h := durable_commit_free_until (lmin (live_reads s)) (w_id w) in
+    ok (put_writer t (wset w (w_tag w) h None ph_horizon) (add_entry w s))).
+Proof. exact programs_durable_horizon_is_model. Qed.
+
+Theorem c03_code_non_durable_commit_free_until_is_model : forall t c s,
+  exec t c TOldestLiveReadNd s =
+  with_writer t s ph_open (fun w =>
+    let h := non_durable_commit_free_until (oldest_nd_read s) (w_id w) in
+    ok (put_writer t (wset w (w_tag w) h None ph_nhorizon) (add_entry w s))).
+Proof. exact programs_nd_horizon_is_model. Qed.
+
+Theorem c03_code_epilogue_free_until_is_model : forall t c s,
+  (forall w, my_writer t s = Some w ->
+     match w_sp_horizon w with Some h => (h < 18446744073709551615)%N | None => True end) ->
+  exec t c TOldestLiveReadE s =
+  with_writer t s ph_cleared (fun w =>
+    let h := epilogue_free_until (lmin (live_reads s)) (w_id w) (sph_u64 (w_sp_horizon w)) in
+    ok (put_writer t (wset w (w_tag w) h (w_sp_horizon w) ph_ehorizon) s)).
+Proof. exact programs_epilogue_horizon_is_model. Qed.
